@@ -144,7 +144,7 @@ def run(ctx):
         return None
     # the Gallina specification of RFC 8032 (extracted, no oracle table) against the library's backend: same public key, same signature
     # bytes, same verdicts (also on corrupted signatures and the RFC's vectors); SHA-512 against hashlib
-    gseeds = [bytes.fromhex(R.VECTORS[1][0]), rng.randbytes(32)] + ([] if ctx.quick else [special[0]] + [rng.randbytes(32) for _ in range(10)] + special[1:4])
+    gseeds = [bytes.fromhex(R.VECTORS[1][0])] + ([] if ctx.quick else [rng.randbytes(32), special[0]] + [rng.randbytes(32) for _ in range(10)] + special[1:4])
     gcases = []
     for i, sd in enumerate(gseeds):
         msg = [bytes.fromhex(R.VECTORS[1][2]), b"", rng.randbytes(200)][i % 3]
